@@ -59,6 +59,14 @@ func spec_render(s Snippet, ctx context.Context) string {
 func spec_printerOf(s Snippet) *printer   { p, _ := s.(*printer); return p }
 func spec_templateOf(s Snippet) *template { t, _ := s.(*template); return t }
 
+// Spec_templateFormat(s): the format text of a snippet built by T() ("" for anything else) - exported for the contracts of package gengo.
+func Spec_templateFormat(s Snippet) string {
+	if spec_templateOf(s) == nil {
+		return ""
+	}
+	return spec_templateOf(s).format
+}
+
 //@ func Sprintf
 //@   props C09
 //@   assigns nothing
@@ -71,6 +79,32 @@ func spec_templateOf(s Snippet) *template { t, _ := s.(*template); return t }
 //@   loop 1 invariant t != nil && t.format == fmt && t.args != nil && fresh(t)
 //@   loop 2 invariant t != nil && t.format == fmt && t.args != nil && fresh(t)
 //@   note the constructor keeps the format as given and always has an argument table (what the table holds is what the TArg values hand over: Args.Args / arg.Args)
+
+func spec_argOf(a TArg) *arg { x, _ := a.(*arg); return x }
+
+//@ func Arg
+//@   props C09
+//@   assigns nothing
+//@   ensures spec_argOf(result) != nil && fresh(spec_argOf(result)) && spec_argOf(result).name == name && spec_argOf(result).snippet == snippet
+//@   note a binding keeps the name and the snippet as given - a nil snippet included (a nil binding renders nothing; it is still a BOUND placeholder)
+
+//@ func IDArg
+//@   props C09
+//@   assigns nothing
+//@   ensures spec_argOf(result) != nil && fresh(spec_argOf(result)) && spec_argOf(result).name == name && spec_argOf(result).snippet == ID(id)
+
+//@ func ValueArg
+//@   props C09
+//@   assigns nothing
+//@   ensures spec_argOf(result) != nil && fresh(spec_argOf(result)) && spec_argOf(result).name == name && spec_argOf(result).snippet == Value(v)
+
+func spec_exposerOf(s Snippet) *pkgExposer { x, _ := s.(*pkgExposer); return x }
+
+//@ func PkgExpose
+//@   props C09 C03
+//@   assigns nothing
+//@   ensures spec_exposerOf(result) != nil && fresh(spec_exposerOf(result)) && spec_exposerOf(result).typeName != nil && spec_exposerOf(result).typeName.Pkg() != nil && spec_exposerOf(result).typeName.Pkg().Path() == pkgPath && spec_exposerOf(result).typeName.Name() == expose
+//@   note the snippet names exactly the package path and the identifier it was given
 
 //@ func template.IsNil
 //@   props C09 C01
@@ -486,6 +520,7 @@ const (
 	spec_GenType  = 1
 	spec_GenAlias = 2
 	spec_Deferred = 3
+	spec_Rendered = 4 // SnippetWriter.Render: a snippet handed to a file's writer (Gen: the writer, Obj: the snippet)
 )
 
 // spec_callMark(): len(spec_fx()) at the moment user code was most recently invoked (ghost): relates the two logs in time.
